@@ -67,13 +67,16 @@ VARIABLES ac,        \* "" or the text of the auto-correct entry
           english, ansi
 vars == <<ac, dict, translit, emoticon, emojis, raw, english, ansi>>
 
+\* two steps, so that TLC's workers share the enumeration: first everything but the dictionary hits, then the hits
 Init == /\ ac \in {""} \cup Texts
-        /\ dict \in UNION {[1..n -> [t : Texts, d : Dists]] : n \in 0..MaxDict}
+        /\ dict = <<>>
         /\ translit \in Texts
         /\ emoticon \in BOOLEAN /\ emojis \in 0..MaxEmoji
         /\ raw \in {"t4", "r"}                      \* "t4": coincides with a Bengali-side token (texts like a lone backslash)
         /\ english \in BOOLEAN /\ ansi \in BOOLEAN
-Next == UNCHANGED vars
+Next == /\ dict = <<>>
+        /\ dict' \in UNION {[1..n -> [t : Texts, d : Dists]] : n \in 1..MaxDict}
+        /\ UNCHANGED <<ac, translit, emoticon, emojis, raw, english, ansi>>
 Spec == Init /\ [][Next]_vars
 
 EnglishOn == english /\ ~ansi        \* the option is masked by ANSI (config getter)
